@@ -298,8 +298,25 @@ func (p *parser) errf(f string, a ...any) error {
 	return &ErrSyntax{fmt.Sprintf(f, a...) + fmt.Sprintf(" at or near %q (pos %d)", near, t.pos)}
 }
 
+// pgReserved: PostgreSQL's reserved key words (cannot be used as a bare
+// identifier); from the SQL key words appendix of the PostgreSQL manual.
+var pgReserved = map[string]bool{}
+
+func init() {
+	for _, w := range strings.Fields(`all analyse analyze and any array as asc asymmetric both case cast check collate column
+constraint create current_catalog current_date current_role current_time current_timestamp current_user default deferrable
+desc distinct do else end except false fetch for foreign from grant group having in initially intersect into lateral leading
+limit localtime localtimestamp not null offset on only or order placing primary references returning select session_user
+some symmetric table then to trailing true union unique user using variadic when where window with`) {
+		pgReserved[w] = true
+	}
+}
+
 func (p *parser) ident() (string, error) {
 	t := p.peek()
+	if t.kind == tIdent && pgReserved[t.s] {
+		return "", p.errf("reserved word used as identifier")
+	}
 	if t.kind == tIdent || t.kind == tQIdent {
 		p.i++
 		return t.s, nil
